@@ -127,6 +127,35 @@ impl<'de> serde::Deserialize<'de> for LocaleServerFnOutputClient {
     }
 }
 
+/// Write `value` as a double quoted string literal that is valid JavaScript (and JSON)
+/// and can not terminate the inline `<script>` it is embedded in.
+#[cfg(all(feature = "dynamic_load", any(feature = "ssr", feature = "hydrate")))]
+fn write_js_string<W: std::fmt::Write>(out: &mut W, value: &str) -> std::fmt::Result {
+    const HEX: &[u8; 16] = b"0123456789abcdef";
+    out.write_char('"')?;
+    for c in value.chars() {
+        match c {
+            '"' => out.write_str("\\\"")?,
+            '\\' => out.write_str("\\\\")?,
+            '\n' => out.write_str("\\n")?,
+            '\r' => out.write_str("\\r")?,
+            '\t' => out.write_str("\\t")?,
+            // no `</script>` or `<!--` inside the script
+            '<' => out.write_str("\\u003c")?,
+            // line separators, not allowed in string literals before ES2019
+            '\u{2028}' => out.write_str("\\u2028")?,
+            '\u{2029}' => out.write_str("\\u2029")?,
+            c if (c as u32) < 0x20 => {
+                out.write_str("\\u00")?;
+                out.write_char(HEX[(c as usize) >> 4] as char)?;
+                out.write_char(HEX[(c as usize) & 0xf] as char)?;
+            }
+            c => out.write_char(c)?,
+        }
+    }
+    out.write_char('"')
+}
+
 #[cfg(all(feature = "dynamic_load", feature = "ssr"))]
 mod register {
     use super::*;
@@ -178,9 +207,7 @@ mod register {
                     if !std::mem::replace(&mut first, false) {
                         buff.push(',');
                     }
-                    buff.push('\"');
-                    buff.push_str(value);
-                    buff.push('\"');
+                    write_js_string(&mut buff, value).unwrap(); // writing to a String can not fail
                 }
                 buff.push_str("]}");
             }
@@ -235,9 +262,7 @@ pub fn init_translations<L: Locale>() -> impl leptos::IntoView {
             if !std::mem::replace(&mut first, false) {
                 buff.push(',');
             }
-            buff.push('\"');
-            buff.push_str(value);
-            buff.push('\"');
+            write_js_string(&mut buff, value).unwrap(); // writing to a String can not fail
         }
         buff.push_str("]}");
         L::init_translations(locale, id, values);
